@@ -33,3 +33,34 @@ def h_mod(func, args, kwargs):
     rv = torch.remainder(x._v, 1.0)
     check_vals(rv, ri, 'remainder')
     return wrap(rv, ri, 'remainder', getattr(x, '_rg', False))
+
+
+# torch.max(x) over all elements when the elements are EQUAL up to rounding (the importance weights at the
+# exact posterior): the generic handler picks the winner on torch's float values while the recorded
+# path condition is evaluated on the DAG's own float evaluation, so a tie broken by one ulp makes the
+# recorded condition false at the witness.  Here the winner is chosen on the DAG values, which makes the
+# recorded conditions (winner >= every other element) hold at the witness by construction.
+from .tensor import HANDLERS, _real_tensor  # noqa: E402
+
+_generic_max = HANDLERS['max']
+
+
+@handler('max', 'min')
+def h_max_all(func, args, kwargs):
+    name = _fname(func)
+    x = args[0]
+    if len(args) > 1 or kwargs or not hasattr(x, '_ids'):
+        return _generic_max(func, args, kwargs)
+    t = cur()
+    d = t.dag
+    flat_i = x._ids.reshape(-1).tolist()
+    vals = [d.vals[i] for i in flat_i]
+    k = max(range(len(vals)), key=lambda j: vals[j]) if name == 'max' else min(range(len(vals)), key=lambda j: vals[j])
+    w = flat_i[k]
+    for j, o in enumerate(flat_i):
+        if j != k and o != w:
+            t.add_pc(d.le(o, w) if name == 'max' else d.le(w, o), name)
+    rv = x._v.reshape(-1)[k].clone()
+    ri = _real_tensor(w, dtype=torch.int64)
+    check_vals(rv, ri, name)
+    return wrap(rv, ri, name, getattr(x, '_rg', False))
